@@ -1523,6 +1523,7 @@ int32 parseServerHello(ssl_t *ssl, int32 hsLen, unsigned char **cp,
     int32 rc;
     unsigned char *extData;
     unsigned char *c;
+    psBool_t resumptionDeclined = PS_FALSE;
 
     c = *cp;
 
@@ -1619,6 +1620,7 @@ int32 parseServerHello(ssl_t *ssl, int32 hsLen, unsigned char **cp,
                 ssl->sessionIdLen = (unsigned char) sessionIdLen;
                 Memcpy(ssl->sessionId, c, sessionIdLen);
                 ssl->flags &= ~SSL_FLAGS_RESUMED;
+                resumptionDeclined = PS_TRUE;
 # ifdef USE_MATRIXSSL_STATS
                 matrixsslUpdateStat(ssl, FAILED_RESUMPTIONS_STAT, 1);
 # endif
@@ -1658,6 +1660,7 @@ int32 parseServerHello(ssl_t *ssl, int32 hsLen, unsigned char **cp,
             ssl->sessionIdLen = 0;
             Memset(ssl->sessionId, 0x0, SSL_MAX_SESSION_ID_SIZE);
             ssl->flags &= ~SSL_FLAGS_RESUMED;
+            resumptionDeclined = PS_TRUE;
 # ifdef USE_MATRIXSSL_STATS
             matrixsslUpdateStat(ssl, FAILED_RESUMPTIONS_STAT, 1);
 # endif
@@ -1822,8 +1825,22 @@ int32 parseServerHello(ssl_t *ssl, int32 hsLen, unsigned char **cp,
 
             TODO - could also send a sessionId and see if it is returned here.
             Spec requires the same sessionId to be returned if ticket is accepted.
+
+            That does not apply when we also sent a session id and the server
+            answered with a different one (or none): RFC 5077 3.4 requires a
+            server that accepts the ticket to echo a non-empty session id.
+            The session state has been discarded above in that case (the
+            master secret is all zero), so an abbreviated handshake must
+            not be accepted.
          */
-        ssl->sid->sessionTicketState = SESS_TICKET_STATE_IN_LIMBO;
+        if (resumptionDeclined)
+        {
+            ssl->sid->sessionTicketState = SESS_TICKET_STATE_INIT;
+        }
+        else
+        {
+            ssl->sid->sessionTicketState = SESS_TICKET_STATE_IN_LIMBO;
+        }
     }
 # endif /* USE_STATELESS_SESSION_TICKETS        */
 
